@@ -40,6 +40,73 @@ Proof.
   intros i [<-|[<-|[]]] H; [reflexivity|congruence].
 Qed.
 
+(* ---- the weight function's value at the placeholder distance of a missing slot never matters (every arithmetic) *)
+Definition slot_equiv {T} (s s' : slot T) : Prop :=
+  present s = present s' /\ val s = val s' /\ (present s = true -> wgt s = wgt s').
+
+Lemma wtmp_equiv {T} (OP : ops T) s s' : slot_equiv s s' -> wtmp OP s = wtmp OP s'.
+Proof. intros [Hp [_ Hw]]. unfold wtmp. rewrite <- Hp. destruct (present s); [apply Hw; reflexivity|reflexivity]. Qed.
+
+Lemma acc_equiv {T} (OP : ops T) ss ss' : Forall2 slot_equiv ss ss' ->
+  forall a, fold_left (acc_step OP (wtmp OP)) ss a = fold_left (acc_step OP (wtmp OP)) ss' a.
+Proof.
+  induction 1 as [|s s' ss ss' H _ IH]; intros a; cbn [fold_left]; [reflexivity|].
+  rewrite IH. f_equal. unfold acc_step. rewrite (wtmp_equiv OP s s' H). destruct H as [_ [-> _]]. reflexivity.
+Qed.
+
+Lemma unc_equiv {T} (OP : ops T) res ss ss' : Forall2 slot_equiv ss ss' ->
+  forall a, fold_left (unc_step OP (wtmp OP) res) ss a = fold_left (unc_step OP (wtmp OP) res) ss' a.
+Proof.
+  induction 1 as [|s s' ss ss' H _ IH]; intros a; cbn [fold_left]; [reflexivity|].
+  rewrite IH. f_equal. unfold unc_step. rewrite (wtmp_equiv OP s s' H). destruct H as [-> [-> _]]. reflexivity.
+Qed.
+
+Lemma count_equiv {T} (ss ss' : list (slot T)) : Forall2 slot_equiv ss ss' ->
+  forall c, fold_left (fun c s => (c + (if present s then 1 else 0))%Z) ss c =
+            fold_left (fun c s => (c + (if present s then 1 else 0))%Z) ss' c.
+Proof.
+  induction 1 as [|s s' ss ss' H _ IH]; intros c; cbn [fold_left]; [reflexivity|].
+  rewrite IH. destruct H as [-> _]. reflexivity.
+Qed.
+
+Lemma col_of_slots_equiv {T} (OP : ops T) ss ss' f : Forall2 slot_equiv ss ss' ->
+  col_of_slots OP (wtmp OP) ss f = col_of_slots OP (wtmp OP) ss' f.
+Proof.
+  intros H. unfold col_of_slots, mean_of, stddev_of, acc, unc, count_of.
+  rewrite (acc_equiv OP ss ss' H), (count_equiv ss ss' H).
+  rewrite (unc_equiv OP _ ss ss' H). reflexivity.
+Qed.
+
+Lemma slots_wf_equiv {T} (OP : ops T) (wf wf' : T -> T) n col ix : forall ds,
+  (forall i d, In (i, d) (combine ix ds) -> i <> n -> wf d = wf' d) ->
+  Forall2 slot_equiv (slots_col (gather OP) wf n col ix ds) (slots_col (gather OP) wf' n col ix ds).
+Proof.
+  unfold slots_col. induction ix as [|i ix IH]; intros [|d ds] H; cbn; try constructor.
+  - unfold slot_equiv, gather; cbn. destruct (Z.eqb_spec i n) as [E|E]; cbn.
+    + repeat split. discriminate.
+    + repeat split. intros _. apply (H i d); [left; reflexivity|assumption].
+  - apply IH. intros k e Hk. apply H. right. assumption.
+Qed.
+
+Lemma weighted_col_placeholder {T} (OP : ops T) (wf wf' : T -> T) n col ix ds f :
+  (forall i d, In (i, d) (combine ix ds) -> i <> n -> wf d = wf' d) ->
+  weighted_col OP wf n col ix ds f = weighted_col OP wf' n col ix ds f.
+Proof. intros H. unfold weighted_col. apply col_of_slots_equiv, slots_wf_equiv, H. Qed.
+
+(* the code before this fix (weight = 0/1 factor * wf(placeholder 1)) is refuted on binary64: a weight function
+   singular at distance 1, here 1/|d-1|, makes norm NaN wherever a slot is missing, so the location is filled
+   although a neighbour is in range; with weight 0 outright the result is the neighbour's value 3 *)
+Definition sing_wf (d : float) : float := PrimFloat.div 1%float (PrimFloat.abs (PrimFloat.sub d 1%float)).
+Definition sing_col : list float := [3%float; 5%float].
+Definition sing_ix : list Z := [0%Z; 2%Z].
+Definition sing_ds : list float := [0.5%float; PrimFloat.infinity].
+
+Lemma legacy_weight_not_placeholder_free :
+  same_bits (c_res (weighted_col_legacy_w F64 sing_wf 2 sing_col sing_ix sing_ds (-7)%float)) (-7)%float = true /\
+  c_cnt (weighted_col_legacy_w F64 sing_wf 2 sing_col sing_ix sing_ds (-7)%float) = 1%Z /\
+  same_bits (c_res (weighted_col F64 sing_wf 2 sing_col sing_ix sing_ds (-7)%float)) 3%float = true.
+Proof. vm_compute. repeat split; reflexivity. Qed.
+
 (* ---- call level *)
 Lemma col_of_weighted {T} (OP : ops T) c t j i1 i2 rest :
   valid_out t = true -> idxs t = i1 :: i2 :: rest ->
